@@ -152,6 +152,8 @@ public:
         int am                                  = (int)rng.below(100);
         p.audit_mode                            = am < 65 ? 2 : (am < 88 ? 1 : 0);
         p.audit_skip_u                          = rng.chance(7, 10);
+        if (profile == P_SPREAD)
+            p.audit_mode = 2; // every eviction's victim must be resolved for the spread statistics
         plan                                    = p;
         phase                                   = 0;
         phase_left                              = 0;
